@@ -11,7 +11,7 @@ import ast
 import math
 import re
 
-from ..engine import rule
+from ..engine import rule, run_property
 from ..model import Undecided, template_placeholders, xml_context
 from ..cfg import dotted, call_name, is_call, simple_name, unparse, const_value, contains, enclosing
 from ..flow import Defs, depends, consteval, try_const, NotConst
@@ -480,3 +480,15 @@ def c02f(ctx):
         else:
             ok = ok and const_value(v) == 1 and not g.guarded(n, lambda at: at.op is None and 'is_latlong' in unparse(at.expr), True)
     ctx.check(ok, 'meter_per_unit:table', 'degrees -> METERS_PER_DEEGREE, everything else -> 1', mpu)
+
+
+@rule('C02.g', floor=1)
+def c02g(ctx):
+    """the image delivered for an address shows its rectangle: tiles cut at a truncated meta-tile border keep their overhang
+    offset (shared rule C04.e)"""
+    sub = run_property(ctx.repo, 'C04', ctx.tier, only={'C04.e'})
+    for er in sub.errors:
+        raise Undecided('shared rule %s: %s' % er)
+    for o in sub.obs:
+        (ctx.ok if o.status == 'ok' else ctx.bad)('%s:%s' % (o.rule, o.construct), o.msg, o.where)
+    ctx.stats['functions'] |= sub.stats['functions']
